@@ -186,6 +186,74 @@ pub fn c04_counters(ctx: &Ctx, ws: &WorkspaceSpec, info: &mut CaseInfo) -> Outco
     Outcome::Ok
 }
 
+/// C02: `textDocument/references` asked from the function name of an overriding fixture concerns that
+/// fixture, asked from its self-named parameter it concerns the next definition outward: every usage
+/// the library lists for the respective definition must be among the returned locations.
+pub fn c02_references(ctx: &Ctx, ws: &WorkspaceSpec, info: &mut CaseInfo) -> Outcome {
+    let mut p = match Pair::start(ws, true) {
+        Ok(p) => p,
+        Err(i) => return infra_outcome(i, &ctx.inconclusive),
+    };
+    let sens = crate::props::c08::order_sensitive_names(&p.m);
+    for fi in 0..p.m.ws.files.len() {
+        if !is_project(&p.m.ws.files[fi].loc) {
+            continue;
+        }
+        let path = p.path(fi);
+        let r = p.m.rendered[fi].clone();
+        for d in &r.defs {
+            let Some(u) = r.uses.iter().find(|u| u.in_def_line == Some(d.line) && u.name == d.name) else { continue };
+            if sens.contains(&d.name) || d.func_name != d.name {
+                info.unjudged += 1;
+                continue;
+            }
+            info.nontrivial = true;
+            for (what, col) in [("function name", d.start), ("self-named parameter", u.start)] {
+                info.checks += 1;
+                // the definition this position concerns, per the library on the same tree
+                let target = if what == "function name" {
+                    crate::snapshot::all_defs(&p.twin).into_iter().find(|x| x.file_path == Path::new(&path) && x.line == d.line && x.name == d.name)
+                } else {
+                    p.twin.find_fixture_definition(Path::new(&path), (d.line - 1) as u32, col as u32)
+                };
+                let Some(target) = target else { continue };
+                let resp = match p.req(
+                    "textDocument/references",
+                    json!({"textDocument": {"uri": crate::lsp::uri_of(&path)}, "position": {"line": d.line - 1, "character": col}, "context": {"includeDeclaration": true}}),
+                ) {
+                    Ok(v) => v,
+                    Err(i) => return infra_outcome(i, &ctx.inconclusive),
+                };
+                let got: std::collections::BTreeSet<(String, u64, u64)> = resp
+                    .as_array()
+                    .into_iter()
+                    .flatten()
+                    .map(|l| (crate::lsp::path_of_uri(l["uri"].as_str().unwrap_or("")), l["range"]["start"]["line"].as_u64().unwrap_or(u64::MAX), l["range"]["start"]["character"].as_u64().unwrap_or(u64::MAX)))
+                    .collect();
+                for usage in p.twin.find_references_for_definition(&target) {
+                    let k = (usage.file_path.to_string_lossy().to_string(), (usage.line - 1) as u64, usage.start_char as u64);
+                    if !got.contains(&k) {
+                        return Outcome::Fail(format!(
+                            "{}:{} `{}`: references asked from the {} concern {}:{}, whose usage at {}:{}:{} is missing from the {} returned locations",
+                            p.rel(&path),
+                            d.line,
+                            d.name,
+                            what,
+                            p.rel(&target.file_path.to_string_lossy()),
+                            target.line,
+                            p.rel(&k.0),
+                            usage.line,
+                            usage.start_char,
+                            got.len()
+                        ));
+                    }
+                }
+            }
+        }
+    }
+    Outcome::Ok
+}
+
 /// Parse the tree printed by `fixtures list` into (relative file path, fixture name) -> count.
 pub fn parse_cli_list(out: &str) -> BTreeMap<(String, String), usize> {
     let mut res = BTreeMap::new();
